@@ -254,6 +254,22 @@ def _dataset_class():
     return RecDataset
 
 
+def _scribble(a: ast.AST):
+    """In-place edits of the tree an executor was handed, of the kind an in-place NodeTransformer makes."""
+    for n in list(ast.walk(a)):
+        if isinstance(n, ast.Call):
+            if isinstance(n.func, ast.Name) and n.func.id == "MetaData" and n.args:
+                n.args[1:] = [ast.Constant(value="scribbled")]
+            elif len(n.args) > 1:
+                n.args[1:] = []
+            n.keywords = []
+        elif isinstance(n, ast.Lambda):
+            n.body = ast.Constant(value=None)
+        for extra in ("_q_metadata", "_func_adl_executor"):
+            if hasattr(n, extra) and not isinstance(n, ast.Call):
+                pass
+
+
 def make_override(k: int):
     async def override(a, title=None):
         return await _W.executor_called(("o", k), a, title)
@@ -294,7 +310,11 @@ class Runner:
 
     # ---------------------------------------------------------------- executors
     async def executor_called(self, exid, a, title):
-        self.glog.append((exid, a, title))
+        # what the executor received is recorded first; then the executor does to its argument what backends do
+        # (extract_metadata and friends edit the tree they are given in place): the library must have handed over a
+        # tree of its own, so none of this may show on any stream
+        self.glog.append((exid, a, title, enc_tree(a), ast.dump(a)))
+        _scribble(a)
         beh = self.behaviour
         self.behaviour = None
         if beh is None:
@@ -547,8 +567,8 @@ class Runner:
             return
         c = len(self.calls)
         self.calls.append({"task": None, "fut": None, "result": got})
-        exid, node, title = self.glog[n0]
-        self._emit(self._vs_sx(o, si), ("C", c, exid, enc_tree(node), title, len(self.glog) - n0))
+        exid, node, title, enc, _d = self.glog[n0]
+        self._emit(self._vs_sx(o, si), ("C", c, exid, enc, title, len(self.glog) - n0))
         self._emit("(vf %d %s)" % (c, enc_res(o["res"])), ("D", c, got))
 
     def _value_start(self, o, si, ps):
@@ -570,8 +590,8 @@ class Runner:
             self._emit(self._vs_sx(o, si), ("E", got[1]))
             return
         self.calls[c]["task"] = task
-        exid, node, title = self.glog[n0]
-        self._emit(self._vs_sx(o, si), ("C", c, exid, enc_tree(node), title, len(self.glog) - n0))
+        exid, node, title, enc, _d = self.glog[n0]
+        self._emit(self._vs_sx(o, si), ("C", c, exid, enc, title, len(self.glog) - n0))
 
     @staticmethod
     def _task_result(task):
@@ -1050,8 +1070,8 @@ def oracle_invisible(r: Runner) -> Optional[str]:
             return "stream %d dumps differently with and without QMetaData" % sid
         if calc_ast_hash(a.query_ast) != calc_ast_hash(b.query_ast):
             return "stream %d hashes differently with and without QMetaData" % sid
-    la = [(e, ast.dump(n), t) for e, n, t in r.glog]
-    lb = [(e, ast.dump(n), t) for e, n, t in r2.glog]
+    la = [(e, d, t) for e, n, t, _x, d in r.glog]
+    lb = [(e, d, t) for e, n, t, _x, d in r2.glog]
     if la != lb:
         return "executor calls differ with and without QMetaData"
     return None
